@@ -122,6 +122,21 @@ def check_new_head():
     return None
 
 
+def check_labels():
+    wb, pr = make(labels=('prio:high',))
+    pr.update_from_gh_json({'number': 1, 'title': 't', 'body': 'b', 'user': {'login': 'dev'}, 'assignees': [], 'requested_reviewers': [], 'labels': [{'name': 'prio:high'}, {'name': 'WIP'}], 'head': {'sha': 'S1', 'ref': 'x'}})
+    try:
+        m = pr.is_mergeable()
+    except AssertionError:
+        m = False
+    if m or 'WIP' not in pr.labels:
+        return {'confirmed': True, 'what': 'a do-not-merge label added on GitHub is not taken over (labels=%r) and the PR stays mergeable=%s' % (sorted(pr.labels), m)}
+    pr.update_from_gh_json({'number': 1, 'title': 't', 'body': 'b', 'user': {'login': 'dev'}, 'assignees': [], 'requested_reviewers': [], 'labels': [], 'head': {'sha': 'S1', 'ref': 'x'}})
+    if pr.labels != set():
+        return {'confirmed': True, 'what': 'labels removed on GitHub are kept: %r' % sorted(pr.labels)}
+    return None
+
+
 def check_start_build_resets():
     """_start_build with every external step failing at once: build_state must have been reset before anything else"""
     wb, pr = make()
@@ -147,7 +162,7 @@ def check_start_build_resets():
 
 
 res = None
-for f in (check_mergeable, check_try_to_merge, check_new_head, check_start_build_resets):
+for f in (check_mergeable, check_try_to_merge, check_new_head, check_labels, check_start_build_resets):
     try:
         res = f()
     except Exception as e:  # pylint: disable=broad-except
